@@ -2324,6 +2324,11 @@ lyd_dup(const struct lyd_node *node, const struct ly_ctx *trg_ctx, struct lyd_no
                 /* orig was not the last node (because we are inserting into a parent with some previous instances),
                  * we must check find the order */
                 first_llist = NULL;
+            } else if ((first_llist == orig) && lyds_is_supported(dup) && dup->prev->next &&
+                    (dup->prev->schema == dup->schema)) {
+                /* orig is the last node but the parent has some previous instances, their sorting tree was created
+                 * and all the following instances must be inserted into it as well */
+                first_llist = NULL;
             }
         }
         first_dup = first_dup ? first_dup : dup;
